@@ -84,7 +84,7 @@ const TEMPLATES: &[Template] = &[
     Template { name: "two pub fns", src: "pub fn main(x: T) -> T {\n  x + {1:T}\n}\npub fn other(y: T, z: bool) -> (bool, T) {\n  (z, y & {1:T})\n}\n", params: &["T"], ret: "T", signed_only: false, unsigned_only: false, other: Some(("other", &["T", "bool"], "(bool,T)")) },
 ];
 
-const ZERO_SIZED: &[(&str, &str, &[usize], usize)] = &[
+pub const ZERO_SIZED: &[(&str, &str, &[usize], usize)] = &[
     ("unit param", "pub fn main(x: (), y: u8) -> () {\n  x\n}\n", &[0, 8], 0),
     ("empty array param", "pub fn main(x: [u8; 0], y: u8) -> [u8; 0] {\n  x\n}\n", &[0, 8], 0),
     ("empty struct", "struct Z {}\npub fn main(z: Z, y: u8) -> Z {\n  z\n}\n", &[0, 8], 0),
